@@ -541,9 +541,49 @@ def parse_routes(ctx: Ctx, lines: list, families, chunk: int = 60) -> list:
     return out
 
 
+def run_spare_bits(ctx: Ctx, afi: int, safi: int) -> None:
+    """prefixes as a peer may send them: when the mask is not a multiple of 8 the last octet has spare low bits, which RFC 4271
+    4.3 calls irrelevant. Whatever ExaBGP makes of them, two decoded routes which compare equal must hash and index alike"""
+    if safi not in (1, 2):
+        return
+    bits = 32 if afi == 1 else 128
+    base = bytes([10, 1, 2, 128]) if afi == 1 else bytes.fromhex('20010db8000100020003000400050080')
+    for sname in ('plain', 'addpath'):
+        neg = ctx.sessions[sname]
+        addpath = sname == 'addpath'
+        if addpath and not neg.addpath.receive(afi, safi) and not neg.addpath.send(afi, safi):
+            continue
+        for mask in [m for m in (1, 7, 9, 17, 25, 31, 33, 63, 65, 120, 127) if m < bits]:
+            nbytes = (mask + 7) // 8
+            spare = 8 * nbytes - mask
+            clean = bytearray(base[:nbytes])
+            clean[-1] &= (0xFF << spare) & 0xFF
+            for fill in (0xFF >> (8 - spare), 1):
+                dirty = bytearray(clean)
+                dirty[-1] |= fill & (0xFF >> (8 - spare))
+                pid = b'\0\0\0\1' if addpath else b''
+                objs = []
+                for raw in (clean, dirty):
+                    got = decode_field(afi, safi, pid + bytes([mask]) + bytes(raw), addpath, neg, False)
+                    if not got or len(got) != 1:
+                        objs = []
+                        break
+                    objs.append(got[0][1])
+                if len(objs) != 2:
+                    ctx.res.count('spare-bits:refused')
+                    continue
+                wit = {'class': laws.nlri_label(objs[0]), 'source': 'wire: spare bits of the last prefix octet', 'mask': mask, 'clean': hx(bytes(clean)), 'dirty': hx(bytes(dirty)), 'a': laws.safe_repr(objs[0]), 'b': laws.safe_repr(objs[1])}
+                eq = check_eq_pair(ctx, objs[0], objs[1], laws.nlri_label(objs[0]), wit)
+                ctx.res.count('spare-bits:' + ('equal' if eq else 'distinct'))
+                if eq is False:
+                    # kept apart: then they are two routes and may not share an index
+                    check_l4_pair(ctx, objs[0], objs[1], 'prefix-address', wit)
+
+
 def run_ip_family(ctx: Ctx, afi: int, safi: int) -> None:
     from exabgp.bgp.message.update.nlri.qualifier import PathInfo
 
+    run_spare_bits(ctx, afi, safi)
     descs = ip_descs(ctx, afi, safi)
     built = {}
     for d in descs:
